@@ -180,7 +180,7 @@ func (c *connection) stop() {
 		clear(c.handles)
 		close(c.msgChan)
 		close(c.activeMsgChan)
-		close(c.activeMsgCompleteChan)
+		// activeMsgCompleteChan 不关闭: 写协程和超时协程可能还在往里发送 关闭会导致panic
 		close(c.reissuePackChan)
 	})
 }
@@ -266,7 +266,10 @@ func (c *connection) onActiveEvent(activeMsg *ActiveMessage, record map[uint16]*
 			}
 			overtimeMsg.ExtensionFields.Err = errors.Join(ErrWriteDataOverTime,
 				fmt.Errorf("overtime is [%.2f]second", duration.Seconds()))
-			c.activeMsgCompleteChan <- overtimeMsg
+			select {
+			case <-c.stopChan:
+			case c.activeMsgCompleteChan <- overtimeMsg:
+			}
 		}(replyMsg)
 	}
 }
